@@ -7,17 +7,22 @@ Layers (DESIGN §6 C05):
       binary merge `List.merge`, i.e. the order (key, sequence index, position).
   L1  `StableRun` / `MinRun` (Proofs/C05Spec.lean): emitting a minimal head — the lowest index
       among equivalents for the stable run — `n` times; stable runs are unique and exist.
-  L2  algorithms of the model `Model/C05Merge.lean` that are proved to be runs, for all inputs:
-      `merge_advance` (k=2), the 3- and 4-way machines with guarded iterators and with unguarded
-      iterators + sentinels (via the *generated* tables, `merge3_tableOK`/`merge4_tableOK`),
-      the guarded loser tree merge (via C09) for every k ≥ 1, copy and pointer trees.
-  L3  `multiwayMergeBase_partial`: the `multiway_merge_base` switch for the covered
-      (k, algorithm) combinations; the rest is the OPEN statement at the end.
+  L2  every algorithm of the model `Model/C05Merge.lean` is a run, for all inputs:
+      `merge_advance` (k=2); the 3- and 4-way machines with guarded iterators, with unguarded
+      iterators + sentinels, and in the combined variants (via the *generated* tables,
+      `merge3_tableOK`/`merge4_tableOK`, and the `prepare_unguarded` invariant); bubble; the
+      guarded / unguarded / combined / sentinel loser tree merges (via C09), copy and pointer trees.
+  L3  `multiwayMergeBase_run` / `multiwayMergeBase_spec`: the `multiway_merge_base` switch, every
+      k, every algorithm, `Stable` x `Sentinels`.
 -/
 import TlxVerif.Gen.C05MergeTables
 import TlxVerif.Proofs.C05MergeAdvance
 import TlxVerif.Proofs.C05LoserTree
 import TlxVerif.Proofs.C05Machine
+import TlxVerif.Proofs.C05Combined
+import TlxVerif.Proofs.C05CombinedLT
+import TlxVerif.Proofs.C05SentinelLT
+import TlxVerif.Proofs.C05Bubble
 namespace TlxVerif.C05
 open TlxVerif.C09 (SWO)
 
@@ -167,25 +172,48 @@ theorem stableRun_single (lt : α → α → Bool) (hirr : ∀ a, lt a a = false
       | j + 1, hj => simp at hj
     simpa using StableRun.emit hm (by simpa using ih)
 
-/-- the (k, algorithm) combinations of `multiway_merge_base` covered so far -/
-def Covered (k : Nat) (sentinels : Bool) (mwma : Algo) : Prop :=
-  k ≤ 2 ∨
-  ((k = 3 ∨ k = 4) ∧ (mwma = .loserTree ∨ mwma = .bubble ∨ (mwma = .loserTreeSentinel ∧ sentinels = true))) ∨
-  (5 ≤ k ∧ mwma = .loserTree)
+/-- the combined variants for k = 3, 4 (the default algorithm) on the generated tables -/
+theorem merge3_combined_run {lt : α → α → Bool} (hlt : SWO lt) (seqs : List (Seq α)) (size : Nat)
+    (hn : seqs.length = 3) (hsorted : ∀ l ∈ xsOf seqs, Sorted lt l) (hsize : size ≤ (xsOf seqs).flatten.length) :
+    ∃ fin out, multiwayMerge3Combined lt Gen.merge3 seqs size = some (fin, out) ∧
+      StableRun lt (xsOf seqs) size out (xsOf fin) ∧ guardsOf fin = guardsOf seqs :=
+  multiwayMerge3Combined_run hlt merge3_tableOK rfl seqs size hn hsorted hsize
 
-/-- **multiway_merge_base, covered part.**  For sorted-or-not inputs (sortedness is only needed to
-read the result through `run_spec`), every `size ≤ total`, every element size, `Stable` and
-`Sentinels` setting: the call is defined — it reads no element outside a sequence (or its sentinel)
-and writes exactly `size` elements — and performs a run (a stable run when `Stable`). -/
-theorem multiwayMergeBase_partial {lt : α → α → Bool} (hlt : SWO lt) (copy stable sentinels : Bool) (dflt : α)
+theorem merge4_combined_run {lt : α → α → Bool} (hlt : SWO lt) (seqs : List (Seq α)) (size : Nat)
+    (hn : seqs.length = 4) (hsorted : ∀ l ∈ xsOf seqs, Sorted lt l) (hsize : size ≤ (xsOf seqs).flatten.length) :
+    ∃ fin out, multiwayMerge4Combined lt Gen.merge3 Gen.merge4 seqs size = some (fin, out) ∧
+      StableRun lt (xsOf seqs) size out (xsOf fin) ∧ guardsOf fin = guardsOf seqs :=
+  multiwayMerge4Combined_run hlt merge3_tableOK rfl merge4_tableOK rfl seqs size hn hsorted hsize
+
+/-- **multiway_merge_base — every entry point, every algorithm.**  For every number of sequences
+`k ≤ 2^31` (empty ones anywhere), sorted by a strict weak order, every `size ≤ total`, every
+`MultiwayMergeAlgorithm`, `Stable` and `Sentinels` setting and both element-size classes (copy /
+pointer loser trees): the call is defined — it reads no element outside a sequence or its
+sentinel, copies nothing beyond an end, trips no assertion, writes exactly `size` elements — and
+performs a run of length `size`: the stable run when `Stable` (and in fact for every `k ≤ 4`),
+a minimal-head run otherwise; what is stored behind the sequences is left as it was. -/
+theorem multiwayMergeBase_run {lt : α → α → Bool} (hlt : SWO lt) (copy stable sentinels : Bool) (dflt : α)
     (seqs : List (Seq α)) (size : Nat) (mwma : Algo)
     (hsize : size ≤ (xsOf seqs).flatten.length) (hk : seqs.length ≤ 2 ^ 31)
-    (hsen : sentinels = true → Sentinels lt seqs)
-    (hcov : Covered seqs.length sentinels mwma) :
+    (hsorted : ∀ l ∈ xsOf seqs, Sorted lt l)
+    (hsen : sentinels = true → Sentinels lt seqs) :
     ∃ fin out, multiwayMergeBase Gen.merge3 Gen.merge4 copy stable sentinels lt dflt seqs size mwma = some (fin, out) ∧
       Run stable lt (xsOf seqs) size out (xsOf fin) ∧ guardsOf fin = guardsOf seqs := by
   unfold multiwayMergeBase
-  match seqs, hsize, hk, hsen, hcov with
+  -- the algorithm actually used
+  have halgo : ∀ a : Algo, (if (!sentinels && decide (mwma = Algo.loserTreeSentinel)) = true then Algo.loserTreeCombined else mwma) = a →
+      a = .loserTreeSentinel → sentinels = true := by
+    intro a ha hs
+    cases hsn : sentinels with
+    | true => rfl
+    | false =>
+      exfalso
+      by_cases hm : mwma = Algo.loserTreeSentinel
+      · simp [hsn, hm] at ha; rw [← ha] at hs; cases hs
+      · simp [hsn, hm] at ha; rw [← ha] at hs; exact hm hs
+  generalize hA : (if (!sentinels && decide (mwma = Algo.loserTreeSentinel)) = true then Algo.loserTreeCombined else mwma) = algo
+  have hsent := halgo algo hA
+  match seqs, hsize, hk, hsorted, hsen with
   | [], hsize, _, _, _ =>
     have : size = 0 := by simpa [xsOf] using hsize
     subst this
@@ -198,60 +226,63 @@ theorem multiwayMergeBase_partial {lt : α → α → Bool} (hlt : SWO lt) (copy
     have hs : size ≤ s1.xs.length + s2.xs.length := by simpa [xsOf] using hsize
     obtain ⟨a, b, o, he, hr⟩ := mergeAdvance_run hlt s1.xs s2.xs size hs
     exact ⟨[{ s1 with xs := a }, { s2 with xs := b }], o, by simp [he], hr.run stable, rfl⟩
-  | [s1, s2, s3], hsize, _, hsen, hcov =>
-    have hc : (mwma = .loserTree ∨ mwma = .bubble ∨ (mwma = .loserTreeSentinel ∧ sentinels = true)) := by
-      rcases hcov with h | ⟨_, h⟩ | ⟨h, _⟩
-      · simp at h
-      · exact h
-      · simp at h
-    rcases hc with h | h | ⟨h, hs⟩
-    · subst h
+  | [s1, s2, s3], hsize, _, hsorted, hsen =>
+    cases algo with
+    | loserTreeCombined =>
+      obtain ⟨fin, out, he, hr, hg⟩ := merge3_combined_run hlt [s1, s2, s3] size rfl hsorted hsize
+      exact ⟨fin, out, by simpa using he, hr.run stable, hg⟩
+    | loserTreeSentinel =>
+      obtain ⟨fin, out, he, hr, hg⟩ := merge3_sentinel_run hlt [s1, s2, s3] size rfl hsize (hsen (hsent rfl))
+      exact ⟨fin, out, by simpa using he, hr.run stable, hg⟩
+    | loserTree =>
       obtain ⟨fin, out, he, hr, hg⟩ := merge3_guarded_run hlt [s1, s2, s3] size rfl hsize
       exact ⟨fin, out, by simpa using he, hr.run stable, hg⟩
-    · subst h
+    | bubble =>
       obtain ⟨fin, out, he, hr, hg⟩ := merge3_guarded_run hlt [s1, s2, s3] size rfl hsize
       exact ⟨fin, out, by simpa using he, hr.run stable, hg⟩
-    · subst h; subst hs
-      obtain ⟨fin, out, he, hr, hg⟩ := merge3_sentinel_run hlt [s1, s2, s3] size rfl hsize (hsen rfl)
+  | [s1, s2, s3, s4], hsize, _, hsorted, hsen =>
+    cases algo with
+    | loserTreeCombined =>
+      obtain ⟨fin, out, he, hr, hg⟩ := merge4_combined_run hlt [s1, s2, s3, s4] size rfl hsorted hsize
       exact ⟨fin, out, by simpa using he, hr.run stable, hg⟩
-  | [s1, s2, s3, s4], hsize, _, hsen, hcov =>
-    have hc : (mwma = .loserTree ∨ mwma = .bubble ∨ (mwma = .loserTreeSentinel ∧ sentinels = true)) := by
-      rcases hcov with h | ⟨_, h⟩ | ⟨h, _⟩
-      · simp at h
-      · exact h
-      · simp at h
-    rcases hc with h | h | ⟨h, hs⟩
-    · subst h
+    | loserTreeSentinel =>
+      obtain ⟨fin, out, he, hr, hg⟩ := merge4_sentinel_run hlt [s1, s2, s3, s4] size rfl hsize (hsen (hsent rfl))
+      exact ⟨fin, out, by simpa using he, hr.run stable, hg⟩
+    | loserTree =>
       obtain ⟨fin, out, he, hr, hg⟩ := merge4_guarded_run hlt [s1, s2, s3, s4] size rfl hsize
       exact ⟨fin, out, by simpa using he, hr.run stable, hg⟩
-    · subst h
+    | bubble =>
       obtain ⟨fin, out, he, hr, hg⟩ := merge4_guarded_run hlt [s1, s2, s3, s4] size rfl hsize
       exact ⟨fin, out, by simpa using he, hr.run stable, hg⟩
-    · subst h; subst hs
-      obtain ⟨fin, out, he, hr, hg⟩ := merge4_sentinel_run hlt [s1, s2, s3, s4] size rfl hsize (hsen rfl)
-      exact ⟨fin, out, by simpa using he, hr.run stable, hg⟩
-  | s1 :: s2 :: s3 :: s4 :: s5 :: rest, hsize, hk, _, hcov =>
-    have hc : mwma = .loserTree := by
-      rcases hcov with h | ⟨h, _⟩ | ⟨_, h⟩
-      · simp at h
-      · simp at h
-      · exact h
-    subst hc
-    obtain ⟨fin, out, he, hr, hg⟩ := loserTree_run hlt copy stable dflt (s1 :: s2 :: s3 :: s4 :: s5 :: rest) size
-      (by simp) hk
-    rw [Nat.min_eq_left hsize] at hr
-    exact ⟨fin, out, by simpa using he, hr, hg⟩
+  | s1 :: s2 :: s3 :: s4 :: s5 :: rest, hsize, hk, hsorted, hsen =>
+    cases algo with
+    | bubble =>
+      obtain ⟨fin, out, he, hr, hg⟩ := multiwayMergeBubble_run hlt stable (s1 :: s2 :: s3 :: s4 :: s5 :: rest) size hsize
+      exact ⟨fin, out, by simpa using he, hr, hg⟩
+    | loserTree =>
+      obtain ⟨fin, out, he, hr, hg⟩ := loserTree_run hlt copy stable dflt (s1 :: s2 :: s3 :: s4 :: s5 :: rest) size
+        (by simp) hk
+      rw [Nat.min_eq_left hsize] at hr
+      exact ⟨fin, out, by simpa using he, hr, hg⟩
+    | loserTreeCombined =>
+      obtain ⟨fin, out, he, hr, hg⟩ := multiwayMergeLoserTreeCombined_run hlt copy stable dflt
+        (s1 :: s2 :: s3 :: s4 :: s5 :: rest) size (by simp) hk hsorted hsize
+      exact ⟨fin, out, by simpa using he, hr, hg⟩
+    | loserTreeSentinel =>
+      obtain ⟨fin, out, he, hr, hg⟩ := multiwayMergeLoserTreeSentinel_run hlt copy stable dflt
+        (s1 :: s2 :: s3 :: s4 :: s5 :: rest) size (by simp) hk (hsen (hsent rfl)) hsize
+      exact ⟨fin, out, by simpa using he, hr, hg⟩
 
-/-- the statement for *every* algorithm selection: additionally the combined variants
-(`prepare_unguarded` + unguarded phase + guarded rest), the sentinel loser tree and bubble -/
-def multiwayMergeBase_statement : Prop :=
-  ∀ {α : Type} {lt : α → α → Bool}, SWO lt → ∀ (copy stable sentinels : Bool) (dflt : α)
-    (seqs : List (Seq α)) (size : Nat) (mwma : Algo),
-    size ≤ (xsOf seqs).flatten.length → seqs.length ≤ 2 ^ 31 → (∀ s ∈ xsOf seqs, Sorted lt s) →
-    (sentinels = true → Sentinels lt seqs) →
+/-- **C05.**  The property, for the model of every entry point and algorithm: see `MergeSpec`. -/
+theorem multiwayMergeBase_spec {lt : α → α → Bool} (hlt : SWO lt) (copy stable sentinels : Bool) (dflt : α)
+    (seqs : List (Seq α)) (size : Nat) (mwma : Algo)
+    (hsize : size ≤ (xsOf seqs).flatten.length) (hk : seqs.length ≤ 2 ^ 31)
+    (hsorted : ∀ l ∈ xsOf seqs, Sorted lt l)
+    (hsen : sentinels = true → Sentinels lt seqs) :
     ∃ fin out, multiwayMergeBase Gen.merge3 Gen.merge4 copy stable sentinels lt dflt seqs size mwma = some (fin, out) ∧
-      Run stable lt (xsOf seqs) size out (xsOf fin) ∧ guardsOf fin = guardsOf seqs
--- OPEN: multiwayMergeBase_statement — proved for `Covered` (multiwayMergeBase_partial); missing: MWMA_LOSER_TREE_COMBINED (k >= 3: prepare_unguarded never lets the unguarded phase exhaust a sequence), MWMA_LOSER_TREE_SENTINEL for k >= 5 (unguarded loser tree merge), MWMA_BUBBLE for k >= 5; these are covered by the model/implementation correspondence and the direct oracle only
+      MergeSpec stable lt (xsOf seqs) size out (xsOf fin) ∧ guardsOf fin = guardsOf seqs := by
+  obtain ⟨fin, out, h1, h2, h3⟩ := multiwayMergeBase_run hlt copy stable sentinels dflt seqs size mwma hsize hk hsorted hsen
+  exact ⟨fin, out, h1, run_spec hlt hsorted h2, h3⟩
 
 /-! ### non-vacuity -/
 
@@ -263,11 +294,20 @@ example : kMerge (fun a b : Nat × Nat => decide (a.1 < b.1)) [[(1, 0), (1, 1), 
     = [(1, 0), (1, 1), (1, 3), (2, 4), (4, 2)] := by
   simp [kMerge, leOf, List.nil_merge, List.merge_right]
 
-/-- the hypotheses of `multiwayMergeBase_partial` are satisfiable in every branch -/
-example : Covered 0 false .bubble ∧ Covered 2 true .loserTreeCombined ∧ Covered 3 false .loserTree ∧
-    Covered 4 true .loserTreeSentinel ∧ Covered 7 false .loserTree := by
-  refine ⟨Or.inl (by omega), Or.inl (by omega), Or.inr (Or.inl ⟨Or.inl rfl, Or.inl rfl⟩),
-    Or.inr (Or.inl ⟨Or.inr rfl, Or.inr (Or.inr ⟨rfl, rfl⟩)⟩), Or.inr (Or.inr ⟨by omega, rfl⟩)⟩
+/-- the hypotheses of `multiwayMergeBase_spec` are satisfiable: five sorted sequences with
+duplicates and an empty one, sentinels behind them -/
+example : ∃ fin out, multiwayMergeBase Gen.merge3 Gen.merge4 true true true (fun a b : Nat => decide (a < b)) 0
+    [{ xs := [1, 2], guard := some 9 }, { xs := [], guard := some 9 }, { xs := [2, 5], guard := some 9 },
+     { xs := [1, 1], guard := some 9 }, { xs := [0, 8], guard := some 9 }] 6 .loserTreeSentinel = some (fin, out) ∧
+    MergeSpec true (fun a b : Nat => decide (a < b))
+      [[1, 2], [], [2, 5], [1, 1], [0, 8]] 6 out (xsOf fin) := by
+  obtain ⟨fin, out, h1, h2, _⟩ := multiwayMergeBase_spec C09.swo_nat true true true 0
+    [{ xs := [1, 2], guard := some 9 }, { xs := [], guard := some 9 }, { xs := [2, 5], guard := some 9 },
+     { xs := [1, 1], guard := some 9 }, { xs := [0, 8], guard := some 9 }] 6 .loserTreeSentinel
+    (by decide) (by decide)
+    (by intro l hl; simp [xsOf] at hl; rcases hl with h | h | h | h | h <;> subst h <;> simp [Sorted])
+    (by intro _ s hs; simp at hs; rcases hs with h | h | h | h | h <;> subst h <;> simp <;> decide)
+  exact ⟨fin, out, h1, h2⟩
 
 example : Sentinels (fun a b : Nat => decide (a < b))
     [{ xs := [1, 2], guard := some 9 }, { xs := [], guard := some 7 }, { xs := [2, 5], guard := some 9 }] := by
